@@ -1044,7 +1044,10 @@ class _L1DynamicsService(_CollinearDynamicsService):
             L1 is between the primaries: -mu < x < 1-mu.
         """
         # L1 is between the primaries: -mu < x < 1-mu
-        return [-self.mu + 0.01, 1 - self.mu - 0.01]
+        # Keep the end near the secondary inside half the Hill radius so that
+        # L1 stays bracketed for very small mass ratios (gamma < 0.01).
+        eps = min(0.01, 0.5 * (self.mu / 3.0) ** (1.0 / 3.0))
+        return [-self.mu + 0.01, 1 - self.mu - eps]
 
     @property
     def _gamma_poly_def(self) -> Tuple[list, tuple]:
@@ -1118,7 +1121,10 @@ class _L2DynamicsService(_CollinearDynamicsService):
             L2 is beyond the smaller primary: x > 1-mu.
         """
         # L2 is beyond the smaller primary: x > 1-mu
-        return [1 - self.mu + 0.001, 2.0]
+        # Keep the end near the secondary inside half the Hill radius so that
+        # L2 stays bracketed for very small mass ratios (gamma < 0.001).
+        eps = min(0.001, 0.5 * (self.mu / 3.0) ** (1.0 / 3.0))
+        return [1 - self.mu + eps, 2.0]
 
     @property
     def _gamma_poly_def(self) -> Tuple[list, tuple]:
